@@ -584,8 +584,8 @@ def run_loads_case(case):
                 load_configuration({name: section_content(name) for name in installed}, plugins)
             except Exception as err:  # noqa: B902
                 return ("loads:raised-%s" % type(err).__name__,
-                        "load %d of %r (pa %s pb) raised %s: %s" % (
-                            round_index, case["installs"], case["relation"],
+                        "load %d of %r (%s %s %s) raised %s: %s" % (
+                            round_index, case["installs"], early, case["relation"], late,
                             type(err).__name__, err))
             order = [name for name, _content in recorder.calls]
             if sorted(order) != sorted(installed):
